@@ -76,6 +76,12 @@ theorem cast_exact_when_held (t : IntTy) (hb : 0 < t.bytes) (v : Int) (h : t.hol
 theorem cast_wraps (t : IntTy) (v : Int) : castInt t v % (256 : Int) ^ t.bytes = v % (256 : Int) ^ t.bytes :=
   castInt_congr t v
 
+/-- a declared cast of integer data to float64 loses nothing: the written double stands for exactly the source value -/
+theorem cast_int_to_double_exact (t : IntTy) (hb : t.bytes ≤ 4) (v : Int) (h : t.holds v) :
+    ∃ f, castIntToF64 v = some f ∧ f64ToInt f = some v := castIntToF64_exact t hb v h
+
+example : castIntToF64 (-4294967295) = some 0xC1EFFFFFFFE00000 ∧ castIntToF32 16777217 = some 0x4B800000 := by decide +kernel
+
 example : castInt ⟨1, false⟩ 300 = 44 ∧ castInt ⟨1, true⟩ 200 = -56 ∧ castInt ⟨2, true⟩ (-40000) = 25536 ∧
     castInt ⟨4, false⟩ (-1) = 4294967295 ∧ castInt ⟨2, false⟩ 65535 = 65535 := by decide
 
